@@ -234,7 +234,10 @@ def check(ck, F, role, rule):
                 ok = ok and ef["kind"] == "scatter" and eq(ef["idx"], isym("i"))
             ck.require(ok, rule, inst, f"weight update for {name} is `{'=' if ef['overwrite'] else '+='} {d}` at index {ef['idx']}; reference is {'+' if ref[name] > 0 else '-'}z^(q+1)*coeff accumulated at the variable's own index", ef["where"], detail=f"{ef['target']}[{ef['idx']}] += {d}")
         else:
-            ck.require(not efs, rule, inst, f"variant {name} must not contribute to any weight ({role}), found {[(e['target'], str(e['delta'])) for e in efs]}", where)
+            # only what the function hands back counts: an accumulator it computes and then drops (a shared helper that
+            # also yields the verifier's constant weight) contributes to nothing
+            kept = [e for e in efs if e["target"] in returned_targets(S)]
+            ck.require(not kept, rule, inst, f"variant {name} must not contribute to any weight ({role}), found {[(e['target'], str(e['delta'])) for e in kept]}", where)
     # distinct targets per variant, and the returned tuple is (L, R, O, V[, c]) in this order
     ret = S["ret"]
     I = S["I"]
@@ -302,6 +305,19 @@ def _walk_leaves(v):
             yield from _walk_leaves(v.fields[k])
     else:
         yield v
+
+
+def returned_targets(S):
+    """targets (weight vectors / scalar accumulators of the summary) that occur in the returned value"""
+    out = set()
+    for x in _walk_leaves(S["ret"]):
+        if isinstance(x, Vec) and isinstance(getattr(x, "flat_tag", None), str):
+            out.add(x.flat_tag)
+        elif isinstance(x, Sc):
+            for a in x.e.atoms(sp.Function):
+                if str(a.func).startswith("FLATSUM:"):
+                    out.add(str(a.func)[len("FLATSUM:"):])
+    return out
 
 
 def return_roles(S):
